@@ -1,7 +1,9 @@
 """C01: Unmarshal agrees with encoding/json (error-or-not and deep equality of the destination)."""
+import os
 import re
 import struct
 
+from .. import core
 from ..runner import Spec, Stream
 
 CONFIG_FIELDS = ["EscapeHTML", "SortMapKeys", "CompactMarshaler", "NoQuoteTextMarshaler", "NoNullSliceOrMap", "UseInt64",
@@ -111,29 +113,80 @@ class BindSpec(Spec):
 
 class C01(BindSpec):
     prop = "C01"
-    lean_modules = ["SonicSpec.Props.C01"]
+    lean_modules = ["SonicSpec.Props.C01", "SonicSpec.Props.C01Dir"]
     rule = ("value-directed documents for generated destination types (random value marshalled by encoding/json, then mutated: "
             "kinds, key case incl. non-ASCII folds, duplicate keys, nulls, out-of-range / non-integer numbers, unknown fields, "
             "escapes, whitespace runs over 16/32/64-byte boundaries) plus a damaged stream, under ConfigStd / ConfigDefault "
             "(+UseNumber, +UseInt64, +DisallowUnknownFields, +CaseSensitive); non-trivial = the document reaches a container "
-            "of the destination type or carries at least one mutation tag")
+            "of the destination type or carries at least one mutation tag; dir-*: the REAL JIT-decoder compiler's program text for "
+            "generated types (hook, op dirdis) against the model compiler's (Model/DirCompile.lean), exact text equality, non-trivial "
+            "when the program has >= 2 instructions; Unmarshal against the model machine's exec (compile T) (op dirun)")
     trusted_base = ["encoding/json (go1.23.5) as executable reference; strconv.ParseFloat as the float oracle of the model",
-                    "the generated decoders' machine code and the native skip/unquote routines are tied by correspondence only"]
+                    "the generated decoders' machine code and the native skip/unquote routines are tied by correspondence only",
+                    "decoder IR: the x86 assembler's meaning of an instruction is tied to Model/DirExec.lean only by the differential run (op dirun); "
+                    "the leaves (native scanners, field lookup) are the specification's (Model/DirExec.lean header)"]
     assumptions = ["float bit patterns are not compared here (C19); configurations that do not validate strings are judged "
                    "only on documents whose string literals are free of raw control characters and ill-formed UTF-8 (as the property says)",
                    "CaseSensitive / UseInt64 have no counterpart in encoding/json: CaseSensitive is judged against the model "
                    "(tie only), UseInt64 after converting int64 in interface{} to the float64 of the reference"]
+
+    def harness_tags(self):
+        ok = os.path.exists(os.path.join(core.REPO, "verifhook", "decoder.go")) and \
+            os.path.exists(os.path.join(core.REPO, "internal", "decoder", "jitdec", "verif_hook.go"))
+        return ["hook_dir"] if ok else []
 
     def streams(self, tier, seed):
         if tier == "quick":
             return [Stream("valid", "bind.valid", 2000, timeout=0.05), Stream("malformed", "bind.malformed", 1000, timeout=0.05),
                     Stream("anydest", "bind.any", 400, timeout=0.05),
                     Stream("utf8bulk", "bind.utf8bulk", 24, timeout=0.5),
-                    Stream("b64esc", "bind.b64esc", 400, timeout=0.05)]
+                    Stream("b64esc", "bind.b64esc", 400, timeout=0.05)] + self.dir_streams(True)
         return [Stream("valid", "bind.valid", 90000, timeout=0.02), Stream("malformed", "bind.malformed", 40000, timeout=0.02),
                 Stream("anydest", "bind.any", 15000, timeout=0.02),
                 Stream("utf8bulk", "bind.utf8bulk", 600, timeout=0.5),
-                Stream("b64esc", "bind.b64esc", 15000, timeout=0.02)]
+                Stream("b64esc", "bind.b64esc", 15000, timeout=0.02)] + self.dir_streams(False)
+
+    # ---- decoder IR (work package `dir`): disassembly tie + behaviour against the model machine
+    def dir_streams(self, q):
+        return [Stream("dir-edge", "dir.edge", 1, timeout=90.0 if q else 300.0),
+                Stream("dir-types", "dir.types", 250 if q else 30000, timeout=0.1),
+                Stream("dir-cutoff", "dir.cutoff", 80 if q else 4000, timeout=0.5),
+                Stream("dir-sub", "dir.sub", 80 if q else 6000, timeout=0.1),
+                Stream("dir-run", "dir.run", 400 if q else 40000, timeout=0.1)]
+
+    def judge_dir(self, case, sonic, model):
+        out = []
+        for env, s in sonic.items():
+            m = model.get(env) or {}
+            mm = m.get("model")
+            so = s.get("sonic", "")
+            if so in ("PANIC", "CRASH", "HANG"):
+                out.append(("crash", "%s: %s" % (env, {k: v[:200] for k, v in s.items()})))
+                continue
+            if mm is None or mm.startswith("unsupported") or so in ("", "unsupported"):
+                continue
+            if case[0] == "dirdis":
+                if mm == "panic" and so.startswith("err"):
+                    continue
+                if mm != "ok" or so != "ok":
+                    out.append(("tie:dir-disassembly", "%s: compiler outcome sonic=%s model=%s" % (env, so[:80], mm)))
+                elif s.get("dis") != m.get("dis"):
+                    a = hexbytes(s.get("dis", "-")).decode("utf-8", "replace").split("\n")
+                    b = hexbytes(m.get("dis", "-")).decode("utf-8", "replace").split("\n")
+                    k = next((i for i, (x, y) in enumerate(zip(a, b)) if x != y), min(len(a), len(b)))
+                    out.append(("tie:dir-disassembly", "%s: line %d real=%r model=%r (%d vs %d lines)"
+                                % (env, k, a[k] if k < len(a) else None, b[k] if k < len(b) else None, len(a), len(b))))
+            elif case[0] == "dirun":
+                # the model machine against the real one, judged where the real decoder and encoding/json agree (where they
+                # differ the `bind` streams judge the property itself, with its known findings)
+                if "ref" not in s:
+                    continue
+                s_ok, r_ok, m_ok = so == "ok", s["ref"] == "ok", mm == "ok"
+                if s_ok != r_ok or (s_ok and mask_floats(s.get("val")) != mask_floats(s.get("rval"))):
+                    continue
+                if m_ok != s_ok or (m_ok and mask_floats(m.get("val")) != mask_floats(s.get("val"))):
+                    out.append(("tie:dir-exec", "%s cfg=%s sonic=%s %s model=%s %s" % (env, case[1], so, s.get("val", "")[:300], mm, m.get("val", "")[:300])))
+        return out
 
     # ------------------------------------------------------------ verdict
     def expected(self, cfg, s, m):
@@ -153,6 +206,8 @@ class C01(BindSpec):
 
     def judge(self, case, sonic, model):
         out = []
+        if case[0] in ("dirdis", "dirun"):
+            return self.judge_dir(case, sonic, model)
         if case[0] != "bind":
             return out
         cfg = int(case[1])
@@ -203,6 +258,10 @@ class C01(BindSpec):
         return out
 
     def model_ref_disagree(self, case, sonic, model):
+        if case[0] == "dirun":
+            # inside the sub-universe of exec_compile_eq_stream_partial the model machine and the single-pass specification
+            # accept the same documents with the same value (the theorem says so)
+            return any(m and m.get("sub") == "1" and m.get("stream") == "ne" for m in model.values())
         if case[0] != "bind":
             return False
         cfg = int(case[1])
@@ -230,11 +289,33 @@ class C01(BindSpec):
         return False
 
     def nontrivial(self, case, sonic, model):
+        if case[0] == "dirdis":
+            try:
+                return any(int((s or {}).get("n", "0")) >= 2 for s in sonic.values())
+            except ValueError:
+                return False
+        if case[0] == "dirun":
+            return "(" in case[2]
         if case[0] != "bind":
             return False
         t = tags_of(case)
         muts = [x for x in t if not x.startswith("cfg:") and x not in ("plain",)]
         return bool(muts) or "(" in case[2]
+
+    def extra(self, ctx):
+        """regenerated facts of the decoder-IR model: the hook is in the tree; the compiler's cut-off constants are the model's"""
+        problems = []
+        ctx["run"].cov["dir_hook_present"] = bool(self.harness_tags())
+        try:
+            src = open(os.path.join(core.REPO, "internal", "decoder", "jitdec", "compiler.go")).read()
+            for name, want in (("_MAX_ILBUF", 100000), ("_MAX_FIELDS", 50)):
+                m = re.search(r"\b%s\s*=\s*(\d+)" % name, src)
+                if not m or int(m.group(1)) != want:
+                    problems.append({"what": "jitdec/compiler.go %s is %s, Model/Dir.lean says %d (the compile model no longer speaks about the code)"
+                                             % (name, m.group(1) if m else "missing", want)})
+        except OSError as e:
+            problems.append({"what": "cannot read internal/decoder/jitdec/compiler.go: %r" % (e,)})
+        return problems
 
     # ------------------------------------------------------------ known findings
     def matchers(self):
